@@ -160,7 +160,9 @@ namespace nmtools::functional
                     , "expect operand to be pointer, number or view for get_compute_graph"
                 );
                 #if 1
-                if constexpr (is_broadcast_view_v<operand_t>) {
+                // only a ufunc of two or more operands wraps its operands in broadcast_to;
+                // the operand of a unary ufunc is a broadcast_to only when the caller wrote one: keep it
+                if constexpr ((N > 1) && is_broadcast_view_v<operand_t>) {
                     // broadccast_to has exactly 1 operand
                     // effectively skip broadcast
                     // TODO: refactor functional ufuncs
